@@ -7,9 +7,9 @@ print("|---|---|---|---|---|")
 for d in sorted(glob.glob(os.path.join(ROOT, "seeded", "*"))):
     m = json.load(open(os.path.join(d, "meta.json")))
     runs = m.get("runs", [])
-    res = ", ".join("%s: %s" % (r["check"], "caught (%ds)" % r["wall_s"] if r["detected"] else ("tool error" if r["exit"] == 2 else "missed")) for r in runs) or "not run"
+    res = ", ".join("%s%s: %s" % (r["check"], "/seed%d" % r["seed"] if r.get("seed") else "", "caught (%ds)" % r["wall_s"] if r["detected"] else ("tool error" if r["exit"] == 2 else "missed")) for r in runs) or "not run"
     needs = (m.get("needs") or "").replace("|", "/").replace("\n", " ")
     if len(needs) > 230:
         needs = needs[:227] + "..."
     tail = " (by design, see below)" if m.get("analysis") else ""
-    print("| %s | `%s` | %s | %s | %s |" % (os.path.basename(d), (m.get("site") or "").replace("|", "/"), needs, ", ".join(r["check"] for r in runs), res + tail))
+    print("| %s | `%s` | %s | %s | %s |" % (os.path.basename(d), (m.get("site") or "").replace("|", "/"), needs, ", ".join(sorted({r["check"] for r in runs})), res + tail))
